@@ -1,8 +1,35 @@
 """Shared workbench for the declaration-driven checks: generate a family, define its variants,
 instrument the generic variant, run the real library and the model side by side."""
+import contextlib
+import signal
 import threading
 
 from . import common, model, monitors, render, spec
+
+
+class CaseTimeout(BaseException):
+    """Raised by the per-case watchdog (SIGALRM). A watchdog expiry is never a verdict."""
+
+
+@contextlib.contextmanager
+def time_limit(seconds):
+    """Wall-clock watchdog around one library call (main thread only; no-op elsewhere)."""
+    if threading.current_thread() is not threading.main_thread() or seconds is None:
+        yield
+        return
+
+    def handler(signum, frame):
+        raise CaseTimeout()
+    old = signal.signal(signal.SIGALRM, handler)
+    signal.setitimer(signal.ITIMER_REAL, seconds)
+    try:
+        yield
+    finally:
+        signal.setitimer(signal.ITIMER_REAL, 0)
+        signal.signal(signal.SIGALRM, old)
+
+
+CASE_TIME_LIMIT = 20.0
 
 _END = threading.local()
 
@@ -26,7 +53,7 @@ class LibResult:
     __slots__ = ("status", "pkt", "end", "err", "etype")
 
     def __init__(self, status, pkt=None, end=None, err=None):
-        self.status = status      # ok | packeterror | exception
+        self.status = status      # ok | packeterror | exception | timeout
         self.pkt = pkt
         self.end = end
         self.err = err
@@ -37,10 +64,13 @@ def lib_unpack(cls, raw, offset=0):
     import bisturi.packet as bp
     _END.value = None
     try:
-        if offset:
-            pkt = cls.unpack(raw, offset)
-        else:
-            pkt = cls.unpack(raw)
+        with time_limit(CASE_TIME_LIMIT):
+            if offset:
+                pkt = cls.unpack(raw, offset)
+            else:
+                pkt = cls.unpack(raw)
+    except CaseTimeout:
+        return LibResult("timeout")
     except bp.PacketError as e:
         return LibResult("packeterror", err=e)
     except RecursionError:
@@ -53,7 +83,10 @@ def lib_unpack(cls, raw, offset=0):
 def lib_pack(pkt):
     import bisturi.packet as bp
     try:
-        out = pkt.pack()
+        with time_limit(CASE_TIME_LIMIT):
+            out = pkt.pack()
+    except CaseTimeout:
+        return LibResult("timeout")
     except bp.PacketError as e:
         return LibResult("packeterror", err=e)
     except RecursionError:
